@@ -10,6 +10,7 @@ package lexer
 
 //@ ghost field Lexer.tokEnd int
 //@ ghost field Lexer.done bool
+//@ ghost field Lexer.exp int
 
 // Representation invariant of the scanner.
 //@ pred LInv(l *Lexer) := 0 <= l.start && l.start <= l.pos && l.pos <= len(l.input)
@@ -19,7 +20,11 @@ package lexer
 
 // Entry condition of each state function.
 //@ pred Pre(f lexFn, l *Lexer) :=
-//@        (f == lexStart ==> l.start == l.pos)
+//@        (f == lexComment ==> l.exp == 1) && (f == lexTaskName ==> l.exp == 2)
+//@     && (f == lexTaskBody || f == lexTaskCommands || f == lexRightBrace ==> l.exp == 3)
+//@     && (f == unexpectedToken ==> l.exp == 0 || l.exp == 3)
+//@     && (f != lexComment && f != lexTaskName && f != lexTaskBody && f != lexTaskCommands && f != lexRightBrace && f != unexpectedToken ==> l.exp == 0)
+//@     && (f == lexStart ==> l.start == l.pos)
 //@     && (f == lexHash ==> l.start == l.pos && hasPrefixAt(l.input, l.pos, "#"))
 //@     && (f == lexComment ==> l.start == l.pos)
 //@     && (f == lexTaskKeyword ==> l.start == l.pos && hasPrefixAt(l.input, l.pos, "task"))
@@ -43,7 +48,7 @@ package lexer
 // Contract shared by every state function (a value of type lexFn).
 //@ functype lexFn(l)
 //@ requires LInv(l) && Pre(self, l)
-//@ modifies l.start, l.pos, l.line, l.startLine, l.width, l.tokEnd, l.done
+//@ modifies l.start, l.pos, l.line, l.startLine, l.width, l.tokEnd, l.done, l.exp
 //@ ensures LInv(l) && (old(l.done) ==> l.done)
 //@ ensures result == nil ==> l.done && !old(l.done)
 //@ ensures result != nil ==> Pre(result, l)
@@ -90,8 +95,10 @@ package lexer
 //@ requires LInv(l)
 //@ requires t != token.ERROR
 //@ requires t == token.EOF ==> l.start == len(l.input)
-//@ modifies l.start, l.startLine, l.tokEnd, l.done
+//@ requires expOK(l.exp, t)
+//@ modifies l.start, l.startLine, l.tokEnd, l.done, l.exp
 //@ ensures LInv(l) && l.start == l.pos && l.tokEnd == l.pos && l.start >= old(l.start)
+//@ ensures l.exp == expNext(old(l.exp), t)
 //@ ensures !old(l.done) && l.done == (t == token.EOF)
 //@ at call send#0: blockif l.done
 //@ at call send#0: assert [tile-type] sent.Type == t
@@ -100,15 +107,23 @@ package lexer
 //@ at call send#0: assert [tile-line] sent.Line == 1 + nl(l.input, 0, sent.Pos)
 //@ at call send#0: assert [tile-eof] t == token.EOF ==> sent.Pos == len(l.input) && len(sent.Value) == 0
 //@ at call send#0: assert [tile-end] sent.Pos + len(sent.Value) == l.pos
+//@ at call send#0: assert [C08,proto] expOK(l.exp, sent.Type)
+//@ at call send#0: assert [C08,line-range] 1 <= sent.Line && sent.Line <= nlines(l.input)
 //@ at call send#0: ghost l.tokEnd = l.pos
 //@ at call send#0: ghost l.done = (t == token.EOF)
+//@ at call send#0: ghost l.exp = expNext(l.exp, t)
 
 //@ func (*Lexer).error
 //@ requires LInv(l) && err != nil
+//@ requires [C08] l.exp == 0 || l.exp == 3
+//@ requires [C08] typeIs(err, syntaxError) && unbox(err, syntaxError).line == l.line && unbox(err, syntaxError).context == lineText(l.input, l.line)
 //@ modifies l.done
 //@ ensures result == nil && l.done && !old(l.done) && LInv(l)
 //@ at call send#0: blockif l.done
 //@ at call send#0: assert [err-type] sent.Type == token.ERROR
+//@ at call send#0: assert [C08,proto] expOK(l.exp, sent.Type)
+//@ at call send#0: assert [C08,line-range] 1 <= sent.Line && sent.Line <= nlines(l.input)
+//@ at call send#0: assert [C08,located] located(sent.Value, l.input)
 //@ at call send#0: ghost l.done = true
 
 //@ func (*Lexer).getLine
@@ -119,8 +134,8 @@ package lexer
 //@ loop 0: decreases nlines(l.input) - $i
 
 //@ func (*Lexer).run
-//@ requires LInv(l) && !l.done && l.start == l.pos
-//@ modifies l.start, l.pos, l.line, l.startLine, l.width, l.tokEnd, l.done
+//@ requires LInv(l) && !l.done && l.start == l.pos && l.exp == 0
+//@ modifies l.start, l.pos, l.line, l.startLine, l.width, l.tokEnd, l.done, l.exp
 //@ ensures l.done
 //@ loop 0: invariant LInv(l) && (state != nil ==> Pre(state, l)) && (state == nil ==> l.done)
 //@ loop 0: decreases (l.done ? 0 : 1), len(l.input) - l.start, rank(state)
@@ -136,7 +151,7 @@ package lexer
 
 //@ func lexComment
 //@ implements lexer.lexFn
-//@ loop 0: invariant LInv(l) && l.done == old(l.done) && l.start == old(l.start) && l.tokEnd == old(l.tokEnd)
+//@ loop 0: invariant LInv(l) && l.done == old(l.done) && l.exp == old(l.exp) && l.start == old(l.start) && l.tokEnd == old(l.tokEnd)
 //@ loop 0: decreases len(l.input) - l.pos
 
 //@ func lexTaskKeyword
@@ -162,7 +177,7 @@ package lexer
 
 //@ func lexTaskCommands
 //@ implements lexer.lexFn
-//@ loop 0: invariant LInv(l) && l.start >= old(l.start) && (old(l.done) ==> l.done)
+//@ loop 0: invariant LInv(l) && l.start >= old(l.start) && (old(l.done) ==> l.done) && l.exp == 3
 //@ loop 0: decreases (l.done ? 0 : 1), len(l.input) - l.pos
 //@ at call skipWhitespace#0: use skipWS_unfold(l.input, l.pos)
 //@ at call skipWhitespace#1: use skipWS_unfold(l.input, l.pos)
@@ -170,12 +185,12 @@ package lexer
 
 //@ func lexTaskName
 //@ implements lexer.lexFn
-//@ loop 0: invariant LInv(l) && l.done == old(l.done) && l.start == old(l.start) && l.tokEnd == old(l.tokEnd)
+//@ loop 0: invariant LInv(l) && l.done == old(l.done) && l.exp == old(l.exp) && l.start == old(l.start) && l.tokEnd == old(l.tokEnd)
 //@ loop 0: decreases len(l.input) - l.pos
 
 //@ func lexIdent
 //@ implements lexer.lexFn
-//@ loop 0: invariant LInv(l) && l.done == old(l.done) && l.start == old(l.start) && l.tokEnd == old(l.tokEnd)
+//@ loop 0: invariant LInv(l) && l.done == old(l.done) && l.exp == old(l.exp) && l.start == old(l.start) && l.tokEnd == old(l.tokEnd)
 //@ loop 0: invariant l.start < l.pos || isIdentRune(runeAt(l.input, l.pos))
 //@ loop 0: decreases len(l.input) - l.pos
 
@@ -191,8 +206,12 @@ package lexer
 
 //@ func lexString
 //@ implements lexer.lexFn
-//@ loop 0: invariant LInv(l) && l.done == old(l.done) && l.start == old(l.start) && l.tokEnd == old(l.tokEnd) && l.start < l.pos
+//@ loop 0: invariant LInv(l) && l.done == old(l.done) && l.exp == old(l.exp) && l.start == old(l.start) && l.tokEnd == old(l.tokEnd) && l.start < l.pos
 //@ loop 0: decreases len(l.input) - l.pos
+
+// errmsg of a boxed syntaxError is what (syntaxError).Error returns (dynamic dispatch, trusted),
+// and that method formats message, line and context with fmt.Sprintf (format string trusted).
+//@ axiom errmsg_syntaxError: forall e error :: {errmsg(e)} typeIs(e, lexer.syntaxError) ==> errmsg(e) == fmtSyntaxError(unbox(e, lexer.syntaxError).message, unbox(e, lexer.syntaxError).line, unbox(e, lexer.syntaxError).context)
 
 //@ func unexpectedToken
 //@ implements lexer.lexFn
